@@ -28,7 +28,11 @@ impl Typstyle {
 
         let attrs = AttrStore::new(node.get()); // Here we only compute the attributes of that subtree.
         let printer = PrettyPrinter::new(self.config.clone(), attrs);
-        let ctx = Context::default().with_mode(mode);
+        let mut ctx = Context::default().with_mode(mode);
+        if in_equation(&node) {
+            // Nothing inside an equation may introduce line breaks, as in `convert_math`.
+            ctx = ctx.suppress_breaks();
+        }
         let doc = if let Some(markup) = node.cast() {
             printer.convert_markup(ctx, markup)
         } else if let Some(expr) = node.cast() {
@@ -107,4 +111,15 @@ fn is_root_markup(node: &LinkedNode<'_>) -> bool {
 /// Spaces and paragraph breaks end with the indentation of the next line, which only the enclosing node can restore.
 fn is_blank(node: &LinkedNode<'_>) -> bool {
     matches!(node.kind(), SyntaxKind::Space | SyntaxKind::Parbreak)
+}
+
+fn in_equation(node: &LinkedNode<'_>) -> bool {
+    let mut cur = node.parent();
+    while let Some(parent) = cur {
+        if parent.kind() == SyntaxKind::Equation {
+            return true;
+        }
+        cur = parent.parent();
+    }
+    false
 }
